@@ -1850,6 +1850,249 @@ def r3c(cx):
                      'parser in portable mode rejects `((` (arithmetic command), so the printed tree does not parse back', loc=loc_of(hc))
 
 
+# ---------------------------------------------------------------------------------------
+# added for seed C06-s7 (the opening quote of $'..' was looked for with line continuation disabled)
+# A line continuation is removed before the text is tokenised, so `$\<newline>{x}`, `$\<newline>(c)`, `$\<newline>x` and
+# `$\<newline>'s'` are the same forms as without it. Every recogniser of a form that begins with `$` therefore decides on the
+# character that follows the `$` with line continuation ENABLED; one that looks at it raw sees the backslash, declines, and the
+# `$` becomes a literal followed by the rest - a tree whose printed text (`$x`, `$'s'`) reads back as the `$` form.
+LEX = 'yash_syntax::parser::lex::'
+_R9_READ = re.compile(r"^yash_syntax::parser::lex::(?:core::Lexer::<[^>]*>|\w+::<impl yash_syntax::parser::lex::core::Lexer<'_>>)::"
+                      r"(peek_char|consume_char_if|consume_char_if_dyn|skip_if|consume_char)$")
+_R9_DISABLE = re.compile(r'^yash_syntax::parser::lex::core::Lexer::<[^>]*>::disable_line_continuation$')
+_R9_PLAIN = 'yash_syntax::parser::lex::core::PlainLexer<'
+_R9_DEREF = ['*::Deref::deref', '*::DerefMut::deref_mut', '*::AsMut::as_mut', '*::BorrowMut::borrow_mut']
+_R9_FUTURE = 'impl core::future::future::Future<'
+
+
+def _r9_prim(t):
+    """Name of the character-reading primitive of Lexer a call invokes, or None."""
+    for n in Q.callee_names(t):
+        m = _R9_READ.match(n)
+        if m:
+            return m.group(1)
+    return None
+
+
+def _r9_sublexer(F, t):
+    """Definition path of the asynchronous lexer routine a call invokes on the lexer it was given, or None."""
+    d = t['f'].get('def') or ''
+    if not d.startswith(LEX) or _r9_prim(t) or not (t.get('dty') or '').startswith(_R9_FUTURE) or not t['a']:
+        return None
+    at0 = (t.get('at') or [''])[0]
+    if not re.search(r'lex::core::(Lexer|WordLexer|PlainLexer)<', at0):
+        return None
+    return d if d in F.bodies else None
+
+
+def _r9_mode(body, du, operand, depth=24):
+    """How the lexer reference `operand` reads: 'raw' when it is (a view of) the PlainLexer that disable_line_continuation()
+    returned, 'inherit' when it is the lexer the function itself was given, 'unknown' otherwise."""
+    p = Q.operand_place(operand)
+    while p is not None and depth > 0:
+        depth -= 1
+        l = p['l']
+        if _R9_PLAIN in (body.locals[l].get('ty') or ''):
+            return 'raw'
+        defs = du.defs.get(l, [])
+        if not defs:
+            return 'inherit'                      # a parameter (the coroutine's captured `self`)
+        if len(defs) != 1:
+            return 'unknown'
+        blk, idx, node = defs[0]
+        if idx == 't':
+            if Q.callee_is(node, [_R9_DISABLE]):
+                return 'raw'
+            if Q.callee_is(node, _R9_DEREF) and node['a']:
+                p = Q.operand_place(node['a'][0])
+                continue
+            return 'unknown'
+        if node['k'] != 'assign':
+            return 'unknown'
+        rv = node['rv']
+        if rv['k'] == 'use':
+            p = Q.operand_place(rv['o'])
+        elif rv['k'] == 'ref':
+            p = rv['pl']
+        else:
+            return 'unknown'
+    return 'unknown'
+
+
+def _r9_unconsumed(F, body, du, b, pend):
+    """The switch ending block `b` tests the outcome of the pending read (call in block `pend`): the targets on which nothing
+    was consumed (consume_char_if -> None, skip_if -> false). None when the switch tests something else (or a wrapper of the
+    outcome: Poll, ControlFlow, Result), [] when only consuming edges leave it."""
+    ec = Q.edge_condition(F, body, du, b)
+    if ec is None:
+        return None
+    org, labels = ec
+    pt = body.term(pend)
+    out = []
+    decided = False
+    for v, labs in labels.items():
+        keep = bool(labs)
+        for lab in labs:
+            o, lb = Q.peel_not(du, org, lab)
+            if o['k'] == 'discr':
+                place, ty = o['pl'], (o.get('ty') or '').lstrip('&')
+            elif o['k'] == 'place' and lb[0] == 'bool':
+                place, ty = o['pl'], 'bool'
+            elif o['k'] == 'call' and lb[0] == 'bool':
+                place, ty = None, 'bool'
+            else:
+                return None
+            src = o['t'] if place is None else Q.value_source(body, du, {'cp': place})
+            if src is not pt:
+                return None
+            if ty.startswith('core::option::Option<'):
+                decided = True
+                keep = keep and lb == ('variant', 'None')
+            elif ty == 'bool':
+                decided = True
+                keep = keep and lb == ('bool', False)
+            else:
+                return None                      # Poll / ControlFlow / Result around the outcome: not the outcome itself
+        if keep:
+            out.append(v)
+    return out if decided else None
+
+
+def _r9_reads(F, fn, inherited, depth=4, trail=()):
+    """The reads of the character at which `fn` is entered: every call of a reading primitive reachable from the entry of its
+    body while nothing has been consumed (peek_char consumes nothing; consume_char_if / skip_if consume nothing on their
+    None / false outcome; after any other outcome, after consume_char and after another lexer routine the position is unknown
+    and the walk stops). Lexer routines called at that position are entered. -> [(body, block, call, mode, trail)]"""
+    body = F.main_body(fn)
+    du = Q.DefUse(body)
+    out, seen, work = [], set(), [(0, None)]
+    while work:
+        b, pend = work.pop()
+        if (b, pend) in seen:
+            continue
+        seen.add((b, pend))
+        t = body.term(b)
+        if t['k'] == 'call':
+            prim = _r9_prim(t)
+            sub = None if prim else _r9_sublexer(F, t)
+            if prim == 'consume_char' or ((prim or sub) and pend is not None):
+                continue
+            if prim or sub:
+                mode = _r9_mode(body, du, t['a'][0])
+                mode = inherited if mode == 'inherit' else mode
+                if prim:
+                    out.append((body, b, t, mode, trail))
+                    if t.get('to') is not None:
+                        work.append((t['to'], None if prim == 'peek_char' else b))
+                elif depth > 0 and sub not in trail and sub != fn:
+                    out.extend(_r9_reads(F, sub, mode, depth - 1, trail + (fn,)))
+                else:
+                    out.append((body, b, t, 'unknown', trail))
+                continue
+            if t.get('to') is not None:
+                work.append((t['to'], pend))
+            continue
+        if t['k'] == 'switch' and pend is not None:
+            tg = _r9_unconsumed(F, body, du, b, pend)
+            if tg is not None:
+                work.extend((v, None) for v in tg)
+                continue
+        work.extend((v, pend) for v in body.succ(b))
+    return out
+
+
+def _r9_accepts_exactly(F, body, du, operand, ch):
+    """The predicate handed to a reading primitive is a closure that accepts exactly the character `ch`."""
+    org = du.origin(operand)
+    if not (org['k'] == 'agg' and org['rv'].get('ak') == 'closure'):
+        return False
+    cb = F.bodies.get(org['rv'].get('def'))
+    if cb is None:
+        return False
+    lit = "'%s'" % ch
+    for _, _, s in cb.stmts():
+        rv = s.get('rv') or {}
+        if s['k'] == 'assign' and rv.get('k') == 'binop' and rv.get('op') == 'Eq' and \
+                any(isinstance(o, dict) and o.get('c') == lit and o.get('ty') == 'char' for o in (rv.get('a'), rv.get('b'))):
+            return True
+    for i in cb.live_blocks():
+        t = cb.term(i)
+        if t['k'] == 'switch' and t.get('dty') == 'char' and [x[0] for x in t['ts']] == [ord(ch)]:
+            return True
+    return False
+
+
+@RS.rule('C06.R9', 'K-SIBLING', 'a line continuation between `$` and what follows is no separator: every recogniser of a form that begins with `$` '
+         '(`$name`, `${`, `$((`, `$(`, `$\'`) reads the character after the `$` with line continuation enabled')
+def r9(cx):
+    F = cx.F
+    # what "enabled" means: the primitives hand the lexer they were given down to peek_char, which consults the flag
+    chain = {'skip_if': 'consume_char_if', 'consume_char_if': 'consume_char_if_dyn', 'consume_char_if_dyn': 'peek_char'}
+    prim_fn = {}
+    for fn in F.bodies:
+        m = _R9_READ.match(fn)
+        if m:
+            prim_fn[m.group(1)] = fn
+    for p, q in chain.items():
+        cx.require(p in prim_fn and q in prim_fn, 'Lexer::%s / Lexer::%s not found' % (p, q))
+        rs = _r9_reads(F, prim_fn[p], 'enabled', depth=0)
+        cx.require(rs and all(_r9_prim(t) == q and mode == 'enabled' for _, _, t, mode, _ in rs),
+                   'Lexer::%s no longer reads through Lexer::%s on the lexer it was given' % (p, q))
+    pk = F.main_body(prim_fn['peek_char'])
+    lc = [t for _, t in pk.calls() if (t['f'].get('def') or '').endswith('::line_continuation')]
+    cx.require(lc and all(_r9_mode(pk, Q.DefUse(pk), t['a'][0]) == 'inherit' for t in lc), 'Lexer::peek_char does not skip line continuations')
+    lb = F.main_body(lc[0]['f']['def'])
+    cx.require(any(isinstance(e, dict) and e.get('f') == 'line_continuation_enabled' for _, _, s in lb.stmts() if s['k'] == 'assign'
+                   for pl in Q.rvalue_places(s['rv']) for e in pl.get('p') or []),
+               'Lexer::line_continuation does not consult line_continuation_enabled')
+    # the siblings: (1) what the routine that consumes the `$` tries next, (2) what produces a WordUnit::DollarSingleQuote
+    siblings = {}          # fn -> (dispatcher, mode the dispatcher hands over)
+    for d in list(F.bodies_in([LEX], exclude=[LEX + 'core::'])):
+        du = None
+        for rb, t in d.calls():
+            if _r9_prim(t) in ('skip_if', 'consume_char_if', 'consume_char_if_dyn') and len(t['a']) > 1:
+                du = du or Q.DefUse(d)
+                if not _r9_accepts_exactly(F, d, du, t['a'][1], '$'):
+                    continue
+                for cb_, ct in d.calls():
+                    sub = _r9_sublexer(F, ct)
+                    if sub and cb_ != rb and d.dominates(rb, cb_):
+                        siblings.setdefault(sub, (d, _r9_mode(d, du, ct['a'][0])))
+        for i, j, s in Q.find_aggregates(d, SYN + 'WordUnit', 'DollarSingleQuote'):
+            du = du or Q.DefUse(d)
+            ops = s['rv'].get('ops') or []
+            src = Q.value_source(d, du, ops[0]) if ops else None
+            sub = _r9_sublexer(F, src) if src is not None else None
+            cx.require(sub is not None, '%s: the content of a DollarSingleQuote unit does not come from a lexer routine' % d.fn)
+            siblings.setdefault(sub, (d, _r9_mode(d, du, src['a'][0])))
+    cx.floor(len(siblings), 5, 'recognisers of forms that begin with `$` (raw parameter, braced parameter, arithmetic expansion, '
+                               'command substitution, dollar-single-quote)')
+    nreads = 0
+    for sub in sorted(siblings):
+        d, handed = siblings[sub]
+        cx.fn(sub)
+        cx.fn(d.root)
+        short = sub.split('::')[-1]
+        cx.require(handed != 'unknown', '%s: the lexer handed to %s is not traceable' % (d.fn, short))
+        reads = _r9_reads(F, sub, 'raw' if handed == 'raw' else 'enabled')
+        cx.require(reads, '%s: no read of the character after `$` found' % sub)
+        for body, b, t, mode, trail in reads:
+            nreads += 1
+            what = _r9_prim(t) or (t['f'].get('def') or '?').split('::')[-1]
+            inner = body.root.split('::')[-1]
+            cx.site('%s: the character after `$` is read by %s%s with line continuation %s'
+                    % (short, what, '' if body.root == sub else ' in ' + inner, {'raw': 'DISABLED'}.get(mode, mode)))
+            cx.require(mode != 'unknown', '%s: the lexer a read of the character after `$` is made on is not traceable (%s)' % (sub, body.loc(t)))
+            if mode == 'raw':
+                cx.violation(sub, 'char-after-dollar-read-raw' + ('' if body.root == sub else ':' + inner),
+                             '%s looks at the character after the `$` with line continuation disabled: in `$\\<newline>` + the rest of the form '
+                             'it sees the backslash and declines, so the `$` becomes a literal followed by the rest of the text as ordinary '
+                             'units; that tree is printed without the line continuation (`$x`, `${x}`, `$(c)`, `$\'s\'`) and the printed text '
+                             'reads back as the `$` form - every sibling recogniser reads this character with line continuation enabled'
+                             % short, loc=body.loc(t))
+    cx.floor(nreads, 7, 'reads of the character after `$`')
+
+
 RS.rules.sort(key=lambda r: r.id)
 
 
